@@ -100,11 +100,15 @@ def _align_phase_with(x, target, period):
 
 def _periodic_upper_bounds(x, period):
   x_plus = _align_phase_with(jnp.roll(x, -1), x, period)
+  # a neighbor exactly half a period away (two cells) is the one above.
+  x_plus = jnp.where(x_plus <= x, x_plus + period, x_plus)
   return (x + x_plus) / 2
 
 
 def _periodic_lower_bounds(x, period):
   x_minus = _align_phase_with(jnp.roll(x, +1), x, period)
+  # a neighbor exactly half a period away (two cells) is the one below.
+  x_minus = jnp.where(x_minus >= x, x_minus - period, x_minus)
   return (x_minus + x) / 2
 
 
